@@ -162,6 +162,17 @@ def run(ctx, idx):
                 ctx.hold("C11.b", con, pmod.rel, r.node.lineno, "counts LF; the pattern admits no bare CR line break")
         elif form == "one":
             ctx.ob("C11.b", con, pmod.rel, r.node.lineno, not multi, "one terminator per match, += 1" if not multi else "the pattern matches several terminators at once but the counter advances by one")
+    # no line terminator is swallowed without being counted: neither CR nor LF may sit in t_ignore, and a bare CR must be matched by a counting rule
+    ign = L.t_ignore or ""
+    swallowed = [c for c in ("\r", "\n") if c in ign]
+    con = "%s::t_ignore::terminators-not-ignored" % pmod.rel
+    ctx.ob("C11.b", con, pmod.rel, L.lexer_cls.node.lineno, not swallowed, "neither CR nor LF is in t_ignore" if not swallowed else
+           "t_ignore contains %s: that line terminator is skipped without advancing the line counter, so in a file with bare-CR or mixed line ends every later command, argument and error carries too small a line number" % ", ".join(repr(c) for c in swallowed))
+    if not swallowed:
+        cr_counted = any(RL.contains(dfas[r.name], {"\r"}) is not None for r in nl)
+        cr_other = [r.name for r in L.rules if r not in nl and not r.ignored and RL.intersection(dfas[r.name], RL.dfa(r"\r")) is not None]
+        ctx.ob("C11.b", "%s::bare-CR-counted" % pmod.rel, pmod.rel, nl[0].node.lineno, cr_counted or bool(cr_other), "a bare CR is matched by the counting newline rule" if cr_counted else
+               "no rule matches a bare CR as a line break" if not cr_other else "CR is matched by %s" % cr_other)
     n_tok = 0
     for r in L.rules:
         if r in nl:
@@ -230,11 +241,36 @@ def run(ctx, idx):
             ctx.ob("C11.d", "%s::command-line" % ac.key, K.rel(ac), c.lineno, ok, "the command object receives the line" if ok else "the command is constructed without its line")
     A = K.anchors(idx)
     if A.init is not None:
-        s = K.src(A.init.node)
         sn = K.self_name(A.init)
-        ok1 = "%s.lineno = lineno" % sn in s
-        ok2 = "%s.argument_lines = {arg.name: arg.lineno for arg in arguments}" % sn in s or ("argument_lines" in s and ".lineno" in s.split("argument_lines")[1][:80])
-        ctx.ob("C11.d", "%s::keeps-lines" % A.init.key, K.rel(A.init), A.init.node.lineno, ok1 and ok2, "command keeps its line and its arguments' lines" if ok1 and ok2 else "Command.__init__ does not keep %s" % ("its line" if not ok1 else "the lines of its arguments"))
+        params_ = [a.arg for a in A.init.node.args.args]
+        ok1 = any(isinstance(n, ast.Assign) and any(isinstance(t, ast.Attribute) and t.attr == "lineno" and isinstance(t.value, ast.Name) and t.value.id == sn for t in n.targets)
+                  and isinstance(K.expand(A.init, n.value), ast.Name) and K.expand(A.init, n.value).id in params_ and "line" in K.expand(A.init, n.value).id for n in own_nodes(A.init.node))
+        # the per-argument table: a fresh mapping assigned to the instance, filled from each argument's own name and line
+        fresh = None
+        for n in own_nodes(A.init.node):
+            if isinstance(n, ast.Assign) and any(isinstance(t, ast.Attribute) and t.attr == "argument_lines" and isinstance(t.value, ast.Name) and t.value.id == sn for t in n.targets):
+                fresh = n
+        why2 = None
+        if fresh is None:
+            why2 = "no fresh table is assigned to the instance: `argument_lines` is then a table shared by every command of the process, keyed by parameter name only, and an error names the line of whichever command was built last"
+        else:
+            v = fresh.value
+            filled = False
+            if isinstance(v, ast.DictComp):
+                filled = isinstance(v.key, ast.Attribute) and v.key.attr == "name" and isinstance(v.value, ast.Attribute) and v.value.attr == "lineno" and K.src(v.key.value) == K.src(v.value.value)
+            elif isinstance(v, ast.Call) and K.src(v.func) in ("dict", "OrderedDict", "collections.OrderedDict") and v.args and isinstance(v.args[0], (ast.GeneratorExp, ast.ListComp)) and isinstance(v.args[0].elt, ast.Tuple) and len(v.args[0].elt.elts) == 2:
+                k_, v_ = v.args[0].elt.elts
+                filled = isinstance(k_, ast.Attribute) and k_.attr == "name" and isinstance(v_, ast.Attribute) and v_.attr == "lineno" and K.src(k_.value) == K.src(v_.value)
+            elif isinstance(v, ast.Dict) and not v.keys or (isinstance(v, ast.Call) and K.src(v.func) in ("dict", "OrderedDict") and not v.args):
+                # empty table filled by a loop: self.argument_lines[a.name] = a.lineno
+                for n in own_nodes(A.init.node):
+                    if isinstance(n, ast.Assign) and len(n.targets) == 1 and isinstance(n.targets[0], ast.Subscript) and isinstance(n.targets[0].value, ast.Attribute) and n.targets[0].value.attr == "argument_lines":
+                        k_, v_ = n.targets[0].slice, n.value
+                        if isinstance(k_, ast.Attribute) and k_.attr == "name" and isinstance(v_, ast.Attribute) and v_.attr == "lineno" and K.src(k_.value) == K.src(v_.value):
+                            filled = True
+            if not filled:
+                why2 = "the table assigned to `argument_lines` is not {argument name: that argument's line}"
+        ctx.ob("C11.d", "%s::keeps-lines" % A.init.key, K.rel(A.init), A.init.node.lineno, ok1 and why2 is None, "command keeps its line and a table of its own arguments' lines" if ok1 and why2 is None else ("Command.__init__ does not keep its line" if not ok1 else "Command.__init__: " + why2))
     n_clean = 0
     for mod, f, n in K.scoped_nodes(idx):
         if isinstance(n, ast.Call) and isinstance(n.func, ast.Attribute) and n.func.attr == "clean" and f is not None:
